@@ -114,13 +114,84 @@ def decode (tbl : List Utf8Row) (s : List UInt8) : Except Fault Dec :=
   | .error f => .error f
   | .ok r => .ok (classify s.length r)
 
-/-! ## utl.c: hawk_conv_bchars_to_uchars_upto_stopper_with_cmgr (utf8 cmgr) -/
+/-! ## lib/mb8.c and lib/utf16.c: the other two built-in character managers
+
+`hawk_uch_t` has 16 bits in the checked build, so the `#if (HAWK_SIZEOF_UCH_T > 2)` surrogate-pair branches of utf16.c are
+not compiled: a code unit in D800..DFFF is illegal for the decoder.  The 16-bit units are stored in host byte order
+(little endian on the checked build: extract/utf8_table.py measures it).  `legacy = true` is utf16.c before the two
+repairs patches/utf16-small-buffer.diff (the encoder stored two bytes whatever `size` said) and
+patches/utf16-incomplete.diff (the decoder answered "illegal" instead of "incomplete" for one byte of a unit). -/
+
+/-- `hawk_uc_to_mb8 (wc, mb8, size)` -/
+def ucToMb8 (wc size : Nat) : EncOut :=
+  if size = 0 then ⟨size + 1, none⟩                      -- buffer too small
+  else if wc > 255 then ⟨0, none⟩                         -- illegal character
+  else ⟨1, some [UInt8.ofNat wc]⟩
+
+/-- `hawk_mb8_to_uc (mb8, size, &wc)` -/
+def mb8ToUc (s : List UInt8) : Except Fault (Nat × Nat) :=
+  match rd s 0 with
+  | .error f => .error f
+  | .ok b => .ok (1, b)
+
+/-- `hawk_uc_to_utf16 (uc, utf16, size)`; `bytes = some b` with `b.length > size` (legacy only) is a store beyond the buffer -/
+def ucToUtf16 (legacy : Bool) (uc size : Nat) : EncOut :=
+  if uc ≤ 0xFFFF then
+    if legacy ∨ 2 ≤ size then ⟨2, some [UInt8.ofNat (uc % 256), UInt8.ofNat (uc / 256)]⟩
+    else ⟨2, none⟩                                        -- (repair) small buffer: 2 > size returned, nothing stored
+  else ⟨0, none⟩
+
+/-- `hawk_utf16_to_uc (utf16, size, &uc)` -/
+def utf16ToUc (legacy : Bool) (s : List UInt8) : Except Fault (Nat × Nat) :=
+  if s.length < 2 then .ok (if legacy then 0 else 2, 0)   -- (repair) incomplete: 2 > size returned
+  else
+    match rd s 0, rd s 1 with
+    | .ok b0, .ok b1 =>
+      let u := b0 + 256 * b1
+      if u < 0xD800 ∨ u > 0xDFFF then .ok (2, u) else .ok (0, 0)
+    | .error f, _ => .error f
+    | _, .error f => .error f
+
+/-! ## hawk_cmgr_t: the pair of converters (lib/utl-cmgr.c `builtin_cmgr[]`) -/
+
+structure Cmgr where
+  bctouc : List UInt8 → Except Fault (Nat × Nat)   -- (return value, value stored to *uc)
+  uctobc : Nat → Nat → EncOut                       -- character, size
+
+/-- hawk_cmgr_id_t -/
+inductive CmgrId
+  | utf8 | utf16 | mb8
+deriving Repr, DecidableEq
+
+@[reducible] def utf8Cmgr (tbl : List Utf8Row) : Cmgr := ⟨utf8ToUc tbl, ucToUtf8 tbl⟩
+@[reducible] def utf16Cmgr (legacy : Bool) : Cmgr := ⟨utf16ToUc legacy, ucToUtf16 legacy⟩
+@[reducible] def mb8Cmgr : Cmgr := ⟨mb8ToUc, ucToMb8⟩
+
+/-- `hawk_get_cmgr_by_id` -/
+def cmgrById : CmgrId → Cmgr
+  | .utf8 => utf8Cmgr utf8Table
+  | .utf16 => utf16Cmgr false
+  | .mb8 => mb8Cmgr
+
+/-- `builtin_cmgr_tab[]` of utl-cmgr.c, in order -/
+def cmgrNames : List (String × CmgrId) := [("utf8", .utf8), ("utf16", .utf16), ("mb8", .mb8)]
+
+/-- `hawk_get_cmgr_by_bcstr` / `hawk_get_cmgr_by_ucstr`: first entry whose name is equal (case sensitive), else NULL -/
+def cmgrByName (name : String) : Option CmgrId :=
+  (cmgrNames.find? (fun e => e.1 == name)).map (·.2)
+
+/-- the bytes of one character under a cmgr (buffer of HAWK_BCSIZE_MAX bytes); `[]` for an illegal character -/
+def encodeC (cm : Cmgr) (c : Nat) : List UInt8 := ((cm.uctobc c bcsizeMax).bytes).getD []
+
+def encodeAllC (cm : Cmgr) (cs : List Nat) : List UInt8 := cs.flatMap (encodeC cm)
+
+/-! ## utl.c: hawk_conv_bchars_to_uchars_upto_stopper_with_cmgr -/
 
 /-- result = (return code, bytes consumed `*bcslen`, characters stored); `wcap` = room in `ucs` -/
-def convUpto (tbl : List Utf8Row) (stopper : Nat) (wcap : Nat) (s : List UInt8) : Except Fault (Int × Nat × List Nat) :=
+def convUpto (cm : Cmgr) (stopper : Nat) (wcap : Nat) (s : List UInt8) : Except Fault (Int × Nat × List Nat) :=
   if hs : s = [] then .ok (0, 0, [])                    -- blen == 0
   else
-    match utf8ToUc tbl s with
+    match cm.bctouc s with
     | .error f => .error f
     | .ok (n, w) =>
       if h0 : n = 0 then .ok (-1, 0, [])                 -- invalid sequence
@@ -128,7 +199,7 @@ def convUpto (tbl : List Utf8Row) (stopper : Nat) (wcap : Nat) (s : List UInt8) 
       else if wcap = 0 then .ok (0, 0, [])               -- ucs >= wend
       else if w = stopper then .ok (0, n, [w])
       else
-        match convUpto tbl stopper (wcap - 1) (s.drop n) with
+        match convUpto cm stopper (wcap - 1) (s.drop n) with
         | .error f => .error f
         | .ok (x, m, out) => .ok (x, n + m, w :: out)
 termination_by s.length
@@ -139,21 +210,21 @@ decreasing_by
 /-! ## utl.c: hawk_conv_bchars_to_uchars_with_cmgr (ucs ≠ NULL) -/
 
 /-- `all = true`: every undecodable byte becomes '?' ; result = (return code, bytes consumed, characters) -/
-def convBtoU (tbl : List Utf8Row) (all : Bool) (wcap : Nat) (s : List UInt8) : Except Fault (Int × Nat × List Nat) :=
+def convBtoU (cm : Cmgr) (all : Bool) (wcap : Nat) (s : List UInt8) : Except Fault (Int × Nat × List Nat) :=
   if hs : s = [] then .ok (0, 0, [])
   else if wcap = 0 then .ok (-2, 0, [])                 -- buffer too small
   else
-    match utf8ToUc tbl s with
+    match cm.bctouc s with
     | .error f => .error f
     | .ok (n, w) =>
       if n = 0 ∨ n > s.length then
         if all then
-          match convBtoU tbl all (wcap - 1) (s.drop 1) with
+          match convBtoU cm all (wcap - 1) (s.drop 1) with
           | .error f => .error f
           | .ok (x, m, out) => .ok (x, 1 + m, 0x3F :: out)
         else .ok (if n = 0 then -1 else -3, 0, [])
       else
-        match convBtoU tbl all (wcap - 1) (s.drop n) with
+        match convBtoU cm all (wcap - 1) (s.drop n) with
         | .error f => .error f
         | .ok (x, m, out) => .ok (x, n + m, w :: out)
 termination_by s.length
@@ -164,17 +235,104 @@ decreasing_by
 
 /-! ## utl.c: hawk_conv_uchars_to_bchars_with_cmgr (bcs ≠ NULL) -/
 
-/-- result = (return code, characters consumed `*ucslen`, bytes stored); `rem` = room in `bcs` -/
-def convUtoB (tbl : List Utf8Row) : List Nat → Nat → Int × Nat × List UInt8
+/-- result = (return code, characters consumed `*ucslen`, bytes stored); `rem` = room in `bcs`.
+(With the unrepaired utf16 encoder the bytes of the refused character were stored all the same: not represented here,
+see `ucToUtf16`.) -/
+def convUtoB (cm : Cmgr) : List Nat → Nat → Int × Nat × List UInt8
   | [], _ => (0, 0, [])
   | c :: cs, rem =>
     if rem = 0 then (-2, 0, [])                          -- buffer too small
     else
-      let e := ucToUtf8 tbl c rem
+      let e := cm.uctobc c rem
       if e.ret = 0 then (-1, 0, [])                      -- illegal character
       else if e.ret > rem then (-2, 0, [])               -- buffer too small
       else
-        let r := convUtoB tbl cs (rem - e.ret)
+        let r := convUtoB cm cs (rem - e.ret)
         (r.1, r.2.1 + 1, e.bytes.getD [] ++ r.2.2)
+
+/-! ## the destination-less passes of the two loops (length queries) and the duplicating converters of lib/gem.c
+
+`hawk_gem_dupbtoucharswithcmgr` / `hawk_gem_duputobcharswithcmgr` (behind every bytes ↔ text conversion of val.c: the
+string / byte-string constructors, `hawk_rtx_valtoucstrdupwithcmgr`, `hawk_rtx_valtobcstrdupwithcmgr`, …) run the loop twice:
+once without a destination to learn the length, then into a block of exactly that length. -/
+
+/-- `hawk_conv_bchars_to_uchars_with_cmgr (bcs, &bcslen, NULL, &ucslen, cmgr, all)`: (return code, bytes consumed, characters counted) -/
+def convBtoUCount (cm : Cmgr) (all : Bool) (s : List UInt8) : Except Fault (Int × Nat × Nat) :=
+  if hs : s = [] then .ok (0, 0, 0)
+  else
+    match cm.bctouc s with
+    | .error f => .error f
+    | .ok (n, _) =>
+      if n = 0 ∨ n > s.length then
+        if all then
+          match convBtoUCount cm all (s.drop 1) with
+          | .error f => .error f
+          | .ok (x, m, k) => .ok (x, 1 + m, k + 1)
+        else .ok (if n = 0 then -1 else -3, 0, 0)
+      else
+        match convBtoUCount cm all (s.drop n) with
+        | .error f => .error f
+        | .ok (x, m, k) => .ok (x, n + m, k + 1)
+termination_by s.length
+decreasing_by
+  all_goals
+    have : 0 < s.length := List.length_pos_iff.mpr hs
+    simp only [List.length_drop]; omega
+
+/-- `hawk_conv_uchars_to_bchars_with_cmgr (ucs, &ucslen, NULL, &bcslen, cmgr)`: each character is encoded into a scratch
+buffer of HAWK_BCSIZE_MAX bytes; (return code, characters consumed, bytes counted) -/
+def convUtoBCount (cm : Cmgr) : List Nat → Int × Nat × Nat
+  | [] => (0, 0, 0)
+  | c :: cs =>
+    let e := cm.uctobc c bcsizeMax
+    if e.ret = 0 then (-1, 0, 0)                         -- illegal character
+    else
+      let r := convUtoBCount cm cs
+      (r.1, r.2.1 + 1, r.2.2 + e.ret)
+
+/-- what a duplicating converter hands back: the converted string, or the error it sets (the block is `len + 1` long) -/
+inductive Dup (α : Type)
+  | ok (v : List α)
+  | eecerr                -- HAWK_EECERR: illegal / incomplete input
+  | ebuffull              -- HAWK_EBUFFULL
+  | overflow (v : List α) -- the second pass would not fit the block sized by the first (proved impossible)
+deriving Repr, DecidableEq
+
+/-- `hawk_gem_dupbtoucharswithcmgr (gem, bcs, len, &ucslen, cmgr, all)` -/
+def dupBtoU (cm : Cmgr) (all : Bool) (s : List UInt8) : Except Fault (Dup Nat) :=
+  match convBtoUCount cm all s with
+  | .error f => .error f
+  | .ok (x, _, k) =>
+    if x ≤ -1 then .ok (if x = -2 then .ebuffull else .eecerr)
+    else
+      match convBtoU cm all k s with
+      | .error f => .error f
+      | .ok (x2, _, out) => .ok (if x2 = 0 ∧ out.length = k then .ok out else .overflow out)
+
+/-- `hawk_gem_duputobcharswithcmgr (gem, ucs, len, &bcslen, cmgr)` -/
+def dupUtoB (cm : Cmgr) (ws : List Nat) : Dup UInt8 :=
+  let r := convUtoBCount cm ws
+  if r.1 ≤ -1 then (if r.1 = -2 then .ebuffull else .eecerr)
+  else
+    let r2 := convUtoB cm ws r.2.2
+    if r2.1 = 0 ∧ r2.2.2.length = r.2.2 then .ok r2.2.2 else .overflow r2.2.2
+
+/-! ## utl.c: the null-terminated variants behind hawk_conv_<enc>_to_ucstr / hawk_conv_ucstr_to_<enc> -/
+
+/-- `hawk_conv_bcstr_to_ucstr_with_cmgr (bcs, &bcslen, ucs, &ucslen, cmgr, all)` with `ucs ≠ NULL` and `wcap = *ucslen`:
+`s` = the bytes up to the first NUL; (return code, bytes consumed, characters stored, terminating NUL stored) -/
+def convBcstrToUcstr (cm : Cmgr) (all : Bool) (wcap : Nat) (s : List UInt8) : Except Fault (Int × Nat × List Nat × Bool) :=
+  let z := s.takeWhile (· ≠ 0)
+  match convBtoU cm all wcap z with
+  | .error f => .error f
+  | .ok (x, m, out) =>
+    if out.length < wcap then .ok (x, m, out, true)      -- room for the terminator
+    else .ok (-2, m, out, false)                          -- buffer too small
+
+/-- `hawk_conv_ucstr_to_bcstr_with_cmgr (ucs, &ucslen, bcs, &bcslen, cmgr)` with `bcs ≠ NULL` and `rem = *bcslen` -/
+def convUcstrToBcstr (cm : Cmgr) (rem : Nat) (ws : List Nat) : Int × Nat × List UInt8 × Bool :=
+  let z := ws.takeWhile (· ≠ 0)
+  let r := convUtoB cm z rem
+  if r.2.2.length < rem then (r.1, r.2.1, r.2.2, true) else (-2, r.2.1, r.2.2, false)
 
 end Hawk.Utf8
